@@ -54,7 +54,7 @@ Section Lex.
     | SAssign vars es _ =>
       existsb (fun t => match t with
                         | EName k _ => beq_bytes nm k
-                        | EIndex p k _ => asgU_exp p || asgU_exp k
+                        | EIndex p k _ => g_is nm p k || asgU_exp p || asgU_exp k
                         | _ => false
                         end) vars || existsb asgU_exp es
     | SLocal nms ls _ es _ =>
@@ -97,7 +97,7 @@ Section Lex.
   Definition asgU_target (t : exp) : bool :=
     match t with
     | EName k _ => beq_bytes nm k
-    | EIndex p k _ => asgU_exp p || asgU_exp k
+    | EIndex p k _ => g_is nm p k || asgU_exp p || asgU_exp k
     | _ => false
     end.
 
@@ -303,6 +303,12 @@ Section Lex.
       destruct (assoc_get k (globs s)); [|exact H]. rewrite assoc_mem_set, H. reflexivity.
     Qed.
 
+    Lemma M_note_G : forall p k s, M s -> M (note_G p k s).
+    Proof.
+      intros p k s H. unfold note_G. destruct p; try exact H. destruct k; try exact H. destruct (_ && _); [|exact H].
+      unfold M, note_nodefine. destruct (find_loc_var _ _ _ _); [exact H|]. destruct (_ || _); exact H.
+    Qed.
+
     Lemma assign_one_M : forall t oe ofn sub lastcall s s',
         shp_exp t = true -> option_map f_loc ofn = val_loc oe ->
         assign_one ce flv slv t oe ofn sub lastcall s = Ok s' -> M s -> M s'.
@@ -326,16 +332,30 @@ Section Lex.
       - (* EIndex *)
         cbn [asgU_target] in Ha. unfold shp_exp in Ht. cbn [chk_exp] in Ht. apply andb_prop in Ht. destruct Ht as [Hp Hk].
         cbn [assign_one] in H. inv_bind H. inv_bind H.
+        destruct (g_is nm t1 t2) eqn:EG0.
+        { (* _G.nm = v *)
+          unfold g_is in EG0. apply andb_prop in EG0. destruct EG0 as [EG0 Enm]. apply andb_prop in EG0. destruct EG0 as [ES EG].
+          apply beq_bytes_eq in Enm. rewrite ES in H. cbn [negb] in H. rewrite EG in H.
+          destruct (find_global (exp_name t2) flv slv _ (globs a0)) as [v|] eqn:Eg.
+          - apply find_global_mem in Eg. rewrite <- Enm in Eg. ok_inj H. destruct (v_empty v && _); [apply M_update_var|]; exact Eg.
+          - ok_inj H. unfold M. cbn [globs]. rewrite assoc_mem_set, Enm, bb_refl. apply orb_true_r. }
+        cbn [orb] in Ha.
         assert (M2 : M a0).
         { apply orb_prop in Ha. destruct Ha as [Ha|Ha].
           - eapply nilM; [exact Hk | exact Hb0 |]. eapply nilU; [exact Hp | exact HK | exact Hb | exact Ha].
           - eapply nilU; [exact Hk | eapply nilK; [exact Hb | exact HK] | exact Hb0 | exact Ha]. }
         destruct (negb (simple_str (exp_name t2))); [ok_inj H; exact M2|].
+        destruct (beq_bytes (exp_name t1) (c_bang :: Symbols.s_G)).
+        { destruct (find_global (exp_name t2) flv slv _ (globs a0)) as [v|].
+          - ok_inj H. destruct (v_empty v && _); [apply M_update_var|]; exact M2.
+          - ok_inj H. unfold M in *. cbn [globs]. rewrite assoc_mem_set, M2. reflexivity. }
         destruct (split_dot (exp_name t1)) as [|p0 ps]; [ok_inj H; exact M2|].
         destruct (negb (forallb simple_str ps)); [ok_inj H; exact M2|].
-        destruct (find_loc_var (env a0) (trim_bang p0) _ 0) as [[[d i] v]|].
-        + ok_inj H. apply M_update_var. exact M2.
-        + destruct (find_global (trim_bang p0) flv slv _ (globs a0)); ok_inj H; apply M_update_var; exact M2.
+        destruct (if beq_bytes (trim_bang p0) Symbols.s_G then ps else []) as [|g0 gs].
+        + destruct (find_loc_var (env a0) (trim_bang p0) _ 0) as [[[d i] v]|].
+          * ok_inj H. apply M_update_var. exact M2.
+          * destruct (find_global (trim_bang p0) flv slv _ (globs a0)); ok_inj H; apply M_update_var; exact M2.
+        + destruct (find_global g0 flv slv _ (globs a0)); ok_inj H; apply M_update_var; exact M2.
     Qed.
 
     Lemma assign_loop_M : forall vars i es lastcall s s',
@@ -585,6 +605,7 @@ Section Lex.
           inv_bind H. destruct a as [[s1 f1] pv1]. injection H as <- <- <-. apply (Texp _ _ _ _ _ _ _ _ He Hb); assumption.
         * (* EIndex *)
           apply andb_prop in He. destruct He as [He1 He2]. inv_bind H. inv_bind H. injection H as <- <- <-.
+          apply M_note_G.
           apply (T_seq _ _ _ _ _ (Tnil _ _ _ _ _ He1 Hb) (Tnil _ _ _ _ _ He2 Hb0)); assumption.
         * (* ECall *)
           apply andb_prop in He. destruct He as [Hp Hargs]. inv_bind H. inv_bind H. injection H as <- <- <-.
